@@ -141,6 +141,6 @@ package staking
 
 //@ func Application.AuthenticateTx
 //@   props C09
-//@   requires ctx != nil && tx != nil && (tx.Fee == nil || quantity.Val(&tx.Fee.Amount) >= 0)
+//@   requires ctx != nil && tx != nil && stakingState.FeeAmt(tx.Fee) >= 0
 //@   precall state\.AuthenticateAndPayFees$ :: argIs(0, ctx) && argIs(1, api.Signer(ctx)) && argIs(2, tx.Nonce) && argIs(3, tx.Fee)
 //@   note the pre-execution authentication runs with the context's authenticated signer and the transaction's own nonce and fee
